@@ -114,6 +114,8 @@ FLAVOURS = {
     'WrapNamed': _fl('class-named', 'wn', True, ['alpha', 'beta'], ['alpha', 'beta'], AB),
     'WrapRequired': _fl('class-named', 'wr', True, ['alpha', 'beta'], ['alpha', 'beta'], {'beta': 'b'}, ['alpha']),
     'WrapCallable': _fl('class-callable', 'wc', True, ['alpha', 'beta'], ['alpha', 'beta'], AB, byname=False),
+    'WrapPartial': _fl('class-callable', 'wp', True, ['alpha', 'beta'], ['alpha', 'beta'], AB, byname=False),
+    'WrapCallableObject': _fl('class-callable', 'wo', True, ['alpha', 'beta'], ['alpha', 'beta'], AB, byname=False),
     'WrapAssigned': _fl('class-callable', 'wa', True, ['alpha', 'beta'], ['alpha', 'beta'], AB, byname=False),
     'WrapBare': _fl('class-bare', 'wb', True, ['alpha', 'beta'], ['alpha', 'beta'], AB),
     'WrapStateless': _fl('class-stateless', 'wl', False, ['alpha', 'beta'], ['alpha', 'beta'], AB),
